@@ -21,8 +21,7 @@ RULE = ("cases = (query with function calls, JSON value): argument expressions o
         "selected nodes must be equal; non-trivial = some call received Nothing or a nodelist with 0 or >= 2 nodes, "
         "or calls are nested, or a non-literal argument met a scalar child; distinct by (query text, document)")
 ASSUMPTIONS = ["vlib/ref/evaluate.py implements RFC 9535 2.4 conversions",
-               "probe functions are pure; the library may evaluate fewer calls than the reference (short circuit) but never different ones",
-               "arguments that start with '!' or '(' are excluded while finding R is open"]
+               "probe functions are pure; the library may evaluate fewer calls than the reference (short circuit) but never different ones"]
 TECHNIQUE = "Hypothesis property-based testing with recording probe functions; differential against the reference evaluator"
 LEVEL_TEXT = ("Generated calls of built-in and 39 user-registered signatures x documents with children of every kind; "
               "both the arguments actually received by each function and the final selection are compared with an "
